@@ -2,6 +2,7 @@ package balance
 
 import (
 	"math/big"
+	"strings"
 
 	"github.com/nspcc-dev/neo-go/pkg/core/transaction"
 	"github.com/nspcc-dev/neo-go/pkg/util"
@@ -139,6 +140,13 @@ func runBalance(b *runner.Batch, mode string) {
 	n := sizes[b.Index%len(sizes)]
 	e, err := newEnv(b, n)
 	if err != nil {
+		if mode == "C02" && strings.Contains(err.Error(), "alphabet witness check failed") {
+			// every set-up call carries the multi-signature of 2/3+1 of the committee: a tree that does not take that for the
+			// Alphabet has lost the authority the statement names (seeded change C02-10: the Alphabet built from the block
+			// validators, which are fewer than the committee in every third world)
+			b.Violation("the Balance contract cannot be set up although the transaction carries the Alphabet's multi-signature (2/3+1 of the committee): "+err.Error(), map[string]any{"committee": n})
+			return
+		}
 		b.Inconclusive("world: " + err.Error())
 		return
 	}
